@@ -33,6 +33,7 @@ type report struct {
 	cases      int
 	nontrivial int
 	witnesses  []string
+	perObl     map[string]int
 	samples    []string
 	known      map[string]bool
 }
@@ -60,7 +61,11 @@ func (r *report) sample(s string) {
 func (r *report) fail(obligation, input, detail string) {
 	r.mu.Lock()
 	defer r.mu.Unlock()
-	if len(r.witnesses) < 40 {
+	if r.perObl == nil {
+		r.perObl = map[string]int{}
+	}
+	r.perObl[obligation]++
+	if r.perObl[obligation] <= 3 && len(r.witnesses) < 60 {
 		r.witnesses = append(r.witnesses, fmt.Sprintf("WITNESS obligation=%s input=%s detail=%s", obligation, strconv.Quote(input), strconv.Quote(detail)))
 	}
 }
